@@ -6,7 +6,7 @@ func init() {
 		Explain: "Decides a structural sufficient condition for injectivity of the hash input plus field coverage, for all pairs of values at once: " +
 			"(H1) every field of Trip/TripID/StopTimeUpdate/StopTimeEvent (for vehicles: Vehicle/VehicleID/Position and the trip) reaches an encoder call, and the excluded fields (Trip.Vehicle, IsEntityInMessage) are never read by the hasher; " +
 			"(H2) the encoder matches the field's type (string -> length-prefixed string, *T -> presence-prefixed encoder, time -> Unix seconds so zone presentation is ignored, slice -> length then every element by a range loop, pointer-to-struct -> presence flag then fields); " +
-			"(H2) also: what is handed to an encoder is computed for the element at hand -- a variable that can keep its value from a previous trip around a loop is not accepted as a source; (SCAN) no loop of the hasher that encodes something per element is left by a break (a `break` for a `continue` after a missing arrival skips the departure); (H3) the primitives are self-delimiting (length before bytes, presence flag on every path, value only on the non-nil edge); " +
+			"(H2) also: what is handed to an encoder is computed for the element at hand -- a variable that can keep its value from a previous trip around a loop is not accepted as a source; (SCAN) no loop of the hasher that encodes something per element is left by a break (a `break` for a `continue` after a missing arrival skips the departure); (H3) the primitives are self-delimiting (length before bytes, presence flag on every path -- written by the number encoder, the method whose own body calls binary.Write, or by a helper whose whole body is number(<its parameter>), with the nil test on the typed pointer -- value only on the non-nil edge); " +
 			"(H4) flush discipline (direct hash writes only in flush/string, flush between buffered length and direct write, final flush); (G15) every value reaching binary.Write has a fixed size; (H5) on the way into the hash no numeric value is converted to a type that cannot hold it (float to integer, a narrower integer or float); determinism via no map range / clock in the hasher. " +
 			"The destination binary.Write encodes into takes everything it is handed (a growable standard buffer, or a writer of the module that repeats its copy for the rest of its argument); the hasher never compares time.Time values as structs. " +
 			"Not decided: encoding/binary and the hash function themselves. No numeric helper between a field and its encoder answers a constant on one path and its argument on another (folding distinct values into one).",
